@@ -313,10 +313,12 @@ class Run(object):
       self._begin(tid, step, pc, recv)
       final = False
       op = None
+      if thrown is not None:
+        # the program does not catch what its sub-task call raised: it leaves the generator as it came
+        self._end(tid, step, "uncaught")
+        self._leave(tid)
+        raise thrown
       try:
-        if thrown is not None:
-          self._end(tid, step, "uncaught")
-          raise thrown
         while pc < n and prog[pc]["op"] in ACTIONS:
           self._action(tid, step, prog[pc])
           pc += 1
@@ -746,6 +748,10 @@ class Run(object):
         if self.ncyc > self.budget:
           self._stop("cycle-budget")
           return False
+        if self.clock.now > self.H:
+          # the ready queue never drained before the horizon (continuous work): stop without judging liveness
+          self._stop("horizon-busy")
+          return False
         rq = sched._ready
         self.log.append(("cyc", self.ncyc, [[self.tid_of(t), getattr(t, "priority", 1)] for t in rq], rq.nleft))
         return orig_cycle()
@@ -761,8 +767,6 @@ class Run(object):
           try:
             return R.Task.execute(self)
           except StopIteration:
-            raise
-          except (TaskError, SubError):
             raise
           except BaseException as e:
             fr = innermost_repo_frame(e)
